@@ -261,11 +261,46 @@ def parse_with_tlc(ctx, recs, label):
     return results
 
 
+def refused_calls(ctx, exe):
+    """'only append to their output' also holds for a call that FAILS: whatever the caller's buffer held before stays in front,
+    whichever family of the slice is the one that cannot be encoded"""
+    good = {"name": "ok", "help": "h", "type": "COUNTER", "metrics": [{"labels": [["l", "v"]], "counter": F(1.0)}]}
+    bads = [{"help": "h", "type": "COUNTER", "metrics": [{"labels": [], "counter": F(1.0)}]},                 # no name
+            {"name": "empty", "help": "h", "type": "GAUGE", "metrics": []},                                      # no samples
+            {"name": "u", "help": "h", "type": "UNTYPED", "metrics": [{"labels": [], "untyped": F(1.0)}]}]     # no text rendering
+    jobs = []
+    for bad in bads:
+        for lit in ([bad], [good, bad], [good, good, bad, good]):
+            for prefix in ("", "# earlier output é\nm 1\n"):
+                calls = [{"op": "text_encode", "lit": lit, "mode": m, "prefix": prefix} for m in ("encode", "utf8")] + [{"op": "text_encode", "lit": [good], "mode": "utf8", "prefix": prefix}]
+                jobs.append({"id": len(jobs), "calls": calls, "prefix": prefix})
+    res = run_api(ctx, exe, [{"id": j["id"], "calls": j["calls"]} for j in jobs], "refused", nproc=2)
+    n = 0
+    for j in jobs:
+        rs = res[j["id"]]
+        rp = {"calls": j["calls"]}
+        for c, x in zip(j["calls"][:2], rs[:2]):
+            if "panic" in x:
+                ctx.violation("panic", "encoding a family list that must be refused panicked: %s" % x, rp)
+            elif "ok" in x:
+                ctx.violation("invalid-family-encoded", "%s encoded a family without name / without samples / of type UNTYPED" % c["mode"], rp)
+            elif not bytes.fromhex(x.get("written", "")).startswith(j["prefix"].encode()):
+                ctx.violation("not-append-only:failed-call", "%s returned Err and left the caller's buffer as %r — it held %r before the call" % (
+                    "encode" if c["mode"] == "encode" else "encode_utf8", bytes.fromhex(x.get("written", ""))[:60], j["prefix"].encode()), rp)
+            else:
+                n += 1
+        # the next successful call on the same thread is unaffected
+        if "ok" not in rs[2] or not bytes.fromhex(rs[2]["ok"]["hex"]).startswith(j["prefix"].encode()):
+            ctx.violation("after-failed-call", "a successful encode_utf8 after a failed one: %s" % json.dumps(rs[2])[:200], rp)
+    ctx.cov["refused_encodes_append_only"] = n
+
+
 def run(ctx):
     exe = build_harness()
     jobs = gen_jobs(ctx)
     res = run_api(ctx, exe, [{"id": j["id"], "calls": j["calls"]} for j in jobs], "text", nproc=12)
     recs = judge_outputs(ctx, jobs, res)
+    refused_calls(ctx, exe)
     results = parse_with_tlc(ctx, recs, "t")
     nok, nlines, nfams = 0, 0, 0
     for r in recs:
